@@ -345,6 +345,19 @@ def callBuiltin (name : String) (args : List Value) : Option (M Value) :=
     | _ => none
   else none
 
+/-- does the ON condition of a join hold on the combined row? -/
+def onHolds (cb : Callbacks) (te : TypeEnv) (env : Env) (scopes : List Scope) : Option Expr → M Bool
+  | none => pure true
+  | some c => do
+    let v ← evalExpr cb te { env with locals := scopes } c
+    pure ((← liftR v.truth) == some true)
+
+/-- the rows of the right-hand side of a join that match the left row `L` (ON condition) -/
+def joinMatches (cb : Callbacks) (te : TypeEnv) (env : Env) (ctx L : List Scope) (on : Option Expr) (rs : List Scope) : M (List (List Scope)) :=
+  rs.foldlM (fun (matched : List (List Scope)) rsc => do
+    let ok ← onHolds cb te env (ctx ++ L ++ [rsc]) on
+    pure (if ok then matched ++ [L ++ [rsc]] else matched)) []
+
 /-- the value of one ORDER BY item on an output row: a bare output-column name or an ordinal refers to the
     output column, anything else is evaluated on the input row -/
 def orderKeyM (cb : Callbacks) (te : TypeEnv) (env : Env) (cols : List String) (r : OutRow) : OrderItem → M Value
@@ -501,23 +514,14 @@ def evalFrom : Nat → Env → List Scope → FromItem → M (List (List Scope))
       if r.isLateral then pure none else do
         let x ← evalPrimary n env ctx r
         pure (some x)
-    let mut out : List (List Scope) := []
-    for L in ls do
-      let (alias, cols, rs) ← match fixedR with
+    ls.foldlM (fun (out : List (List Scope)) L => do
+      let x ← match fixedR with
         | some x => pure x
         | none => evalPrimary n env (ctx ++ L) r
-      let mut matched : List (List Scope) := []
-      for rsc in rs do
-        let ok ← match on with
-          | none => pure true
-          | some c => do
-            let v ← evalExpr (cbs n) te { env with locals := ctx ++ L ++ [rsc] } c
-            pure ((← liftR v.truth) == some true)
-        if ok then matched := matched ++ [L ++ [rsc]]
+      let matched ← joinMatches (cbs n) te env ctx L on x.2.2
       if matched.isEmpty && kind == .left then
-        out := out ++ [L ++ [nullScope alias cols]]
-      else out := out ++ matched
-    pure out
+        pure (out ++ [L ++ [nullScope x.1 x.2.1]])
+      else pure (out ++ matched)) []
   | n + 1, env, ctx, item => do
     let (_, _, rs) ← evalPrimary n env ctx item
     pure (rs.map (fun s => [s]))
